@@ -50,8 +50,50 @@ static std::vector<const Fmt *> rdwr_formats ()
 	return v ;
 }
 
+// Bounded-exhaustive part of C08 (thorough tier, every second plan): all sequences up to depth 4 over a 12-letter alphabet
+// {write 3, read 2, seven seeks covering the three whence values and the three flag variants, truncate 2, update-header,
+// close/re-open}, from an empty and from a 5-frame file, for one sample-granular format per container, on the descriptor route
+// (where SFC_FILE_TRUNCATE works). Sequence number e enumerates container (fastest), start state, then sequences in order of length.
+static J gen_c08_enum (uint64_t seed, uint64_t idx, uint64_t e)
+{	static std::vector<const Fmt *> conts = [] { std::vector<const Fmt *> v ; std::set<int> seen ;
+		for (auto f : rdwr_formats ()) if (!seen.count (f->major) && lossless_lowzero (*f, T_SHORT) >= 0) { seen.insert (f->major) ; v.push_back (f) ; } return v ; } () ;
+	J plan = plan_skeleton ("C08", seed, idx) ;
+	const Fmt &f = *conts [e % conts.size ()] ; e /= conts.size () ;
+	bool prepop = e % 2 ; e /= 2 ;
+	std::vector<int> seq ; { uint64_t n = e, len = 1, span = 12 ; while (len < 4 && n >= span) { n -= span ; span *= 12 ; len ++ ; } n %= span ; for (uint64_t k = 0 ; k < len ; k++) { seq.push_back ((int) (n % 12)) ; n /= 12 ; } }
+	int rate = 8000, ch = valid_channels (f, 1, rate) ? 1 : 2 ;
+	J &cfg = plan ["cfg"] ;
+	cfg ["fmt"] = f.name ; cfg ["ch"] = ch ; cfg ["sr"] = rate ; cfg ["route"] = "fd" ; cfg ["T"] = "short" ; cfg ["model"] = "short" ; cfg ["enumerated"] = (long long) seq.size () ;
+	DataDesc d ; d.cls = "noise" ; d.k = 3 ; d.stream = (int64_t) (idx % 1000) ; cfg ["data"] = data_desc_to (d) ;
+	J ops = J::arr () ;
+	if (prepop) { J o = mkop ("open") ; o ["mode"] = "w" ; ops.push (o) ; J w = mkop ("write") ; w ["T"] = "short" ; w ["fr"] = 1 ; w ["n"] = 5 ; ops.push (w) ; ops.push (mkop ("close")) ; }
+	{ J o = mkop ("open") ; o ["mode"] = "rw" ; o ["expect"] = "any" ; ops.push (o) ; }
+	auto seek = [&] (int64_t off, int whence, int flag) { J s = mkop ("seek") ; s ["off"] = (long long) off ; s ["whence"] = whence ; s ["flag"] = flag ; ops.push (s) ; } ;
+	for (int a : seq) switch (a)
+	{	case 0 : { J w = mkop ("write") ; w ["T"] = "short" ; w ["fr"] = 1 ; w ["n"] = 3 ; ops.push (w) ; } break ;
+		case 1 : { J r = mkop ("read") ; r ["T"] = "short" ; r ["fr"] = 1 ; r ["n"] = 2 ; ops.push (r) ; } break ;
+		case 2 : seek (0, 0, 0) ; break ;
+		case 3 : seek (2, 0, SFM_READ) ; break ;
+		case 4 : seek (4, 0, SFM_WRITE) ; break ;
+		case 5 : seek (1, 1, 0) ; break ;
+		case 6 : seek (-1, 2, SFM_READ) ; break ;
+		case 7 : seek (0, 2, SFM_WRITE) ; break ;
+		case 8 : seek (7, 0, 0) ; break ;
+		case 9 : { J c = mkop ("cmd") ; c ["id"] = "truncate" ; c ["arg"] = 2 ; ops.push (c) ; } break ;
+		case 10 : if (has_header (f)) { J c = mkop ("cmd") ; c ["id"] = "update_header" ; ops.push (c) ; } break ;
+		default : { ops.push (mkop ("close")) ; J o = mkop ("open") ; o ["mode"] = "rw" ; o ["expect"] = "any" ; ops.push (o) ; } break ;
+	}
+	ops.push (mkop ("close")) ;
+	{ J o = mkop ("open") ; o ["mode"] = "r" ; o ["expect"] = "any" ; ops.push (o) ; }
+	{ J r = mkop ("read") ; r ["T"] = "short" ; r ["fr"] = 1 ; r ["n"] = 40 ; ops.push (r) ; }
+	ops.push (mkop ("close")) ;
+	J task = J::obj () ; task ["ops"] = ops ; plan ["tasks"].push (task) ;
+	return plan ;
+}
+
 static J gen_c08 (uint64_t seed, uint64_t idx)
 {	static std::vector<const Fmt *> fmts = rdwr_formats () ;
+	if (g_thorough && idx % 2 == 0) return gen_c08_enum (seed, idx, idx / 2) ;
 	J plan = plan_skeleton ("C08", seed, idx) ;
 	GenCtx g (sub_seed (seed, "C08", idx)) ;
 	const Fmt &f = *fmts [idx % fmts.size ()] ;
@@ -145,6 +187,7 @@ static Verdict check_c08 (const J &plan)
 		if (op == "open") last = "" ;
 	}
 	v.nontrivial = rw && wr && flagged ;
+	if (plan.at ("cfg").geti ("enumerated", 0)) { v.nontrivial = true ; v.probes [("enumerated_depth_" + std::to_string (plan.at ("cfg").geti ("enumerated"))).c_str ()] ++ ; }
 	return v ;
 }
 
